@@ -28,6 +28,10 @@ Decl  := {'d': 'function', 'name', 'ret': Type, 'params': [Param], 'inline': boo
        | {'d': 'var', 'name', 'type'}
    every decl may carry 'file' (default 'foo.h'); file None = declared in a header that is
    included but not scanned (only makes the typedef name known; produces no symbol).
+   Optional 'line' (line reported for the decl's symbol; default: a running counter) and, for a
+   compound with tag and body, 'line_body' (line of the STRUCT/UNION symbol, i.e. of the `}`).
+   Field 'private' is the author's intent (which marker precedes the member); what the front end
+   makes of the rendered text is effective_fields().
 Field := {'name', 'type', 'private': bool, 'bits': int|None}
        | {'name': str|None, 'anon': 'struct'|'union', 'fields': [Field], 'private': bool}
 Member:= {'name', 'value': int|None (None = implicit), 'shift': bool, 'private': bool}
@@ -120,18 +124,59 @@ def _params(params, cx):
     return out
 
 
-def _fields(fields, cx):
+def _type_has_tag_keyword(t):
+    """Does the C spelling of t contain a struct/union/enum keyword?"""
+    if t.get('fp') is not None:
+        fp = t['fp']
+        return _type_has_tag_keyword(fp['ret']) or any(_type_has_tag_keyword(p['type']) for p in fp['params']
+                                                       if not p.get('ellipsis'))
+    return t.get('kind') in ('struct', 'union', 'enum')
+
+
+def effective_fields(fields, _state=None):
+    """Copy of `fields` whose 'private' flags are what the front end computes for the text that
+    to_header_text() renders.  scanner->private is set by the /*< private >*/ and /*< public >*/
+    markers, *reset to FALSE by every struct/union/enum keyword* (scannerparser.y struct_or_union,
+    enum_keyword: also the keyword of a member's own type, `struct _Priv *priv;`), and sampled when
+    the member's `;` has been read (struct_declaration).  The renderer emits a marker only when the
+    model flag differs from the previous member's, so a private member spelled with a tag keyword,
+    and the members after it, come out public; and the state a nested anonymous struct/union ends
+    in leaks to the members that follow it."""
+    st = _state if _state is not None else [False]
+    out = []
+    believed = False                      # _fields_text's own idea of the marker state
+    for f in fields:
+        want = bool(f.get('private'))
+        if want != believed:
+            believed = want
+            st[0] = want                  # marker rendered before the member
+        g = dict(f)
+        if f.get('anon'):
+            st[0] = False                 # keyword of the nested compound
+            g['fields'] = effective_fields(f['fields'], st)
+        elif _type_has_tag_keyword(f['type']):
+            st[0] = False
+        g['private'] = st[0]
+        out.append(g)
+    return out
+
+
+def _fields(fields, cx, _effective=False):
+    if not _effective:
+        fields = effective_fields(fields)
     out = []
     for f in fields:
         if f.get('anon'):
             kind = CT_STRUCT if f['anon'] == 'struct' else CT_UNION
-            base = T(kind, None, None, 0, children=_fields(f['fields'], cx))
+            base = T(kind, None, None, 0, children=_fields(f['fields'], cx, True))
             for d in reversed(f.get('dims', [])):
                 base = _array(d, base, cx)
             s = S(SYM_MEMBER, f.get('name'), base, cx.line, cx.file, private=bool(f.get('private')))
         else:
+            # `T : 3;` (struct_declarator ':' constant_expression) makes a fresh symbol: no const_int
+            bits = f.get('bits') if f.get('name') is not None else None
             s = S(SYM_MEMBER, f['name'], _type_chain(f['type'], cx), cx.line, cx.file,
-                  private=bool(f.get('private')), const_int=f.get('bits'))
+                  private=bool(f.get('private')), const_int=bits)
         out.append(s)
     return out
 
@@ -147,6 +192,41 @@ def enum_values(members):
         last = v
         vals.append(v)
     return vals
+
+
+def _s32(v):
+    v &= (1 << 32) - 1
+    return v - (1 << 32) if v >= (1 << 31) else v
+
+
+def frontend_enum_values(members):
+    """What scannerparser.y computes: explicit values are gint64, but the running value for the
+    implicit ones is kept in `static int last_enum_value` (line 53, 1142, 1151), so it is truncated
+    to 32 bits after every enumerator.  enum_values() above is the C meaning."""
+    vals = []
+    last = -1
+    for m in members:
+        v = m.get('value')
+        if v is None:
+            last = _s32(last + 1)
+            v = last
+        else:
+            v = _s64(v)
+            last = _s32(v)
+        vals.append(v)
+    return vals
+
+
+def cast_is_lexed_as_type(t):
+    """During the macro scan the lexer returns IDENTIFIER/TYPEDEF_NAME for every word that is not
+    matched by a rule placed before scannerlexer.l line 207: `int`, `unsigned`, `char`, `const`,
+    `struct`, `void` ... are plain identifiers there, so `((unsigned char) 5)` is a syntax error and
+    the macro yields no symbol.  Only typedef names (and _Bool/bool) make a cast."""
+    if t.get('fp') is not None or t.get('q'):
+        return False
+    if t['kind'] == 'typedef':
+        return True
+    return t['kind'] == 'basic' and t['base'] in ('_Bool', 'bool')
 
 
 def _s64(v):
@@ -176,6 +256,8 @@ def to_symbols(decls, default_file='/src/foo.h'):
     normal, macros = [], []
     for d in decls:
         cx.line += 2
+        if d.get('line') is not None:
+            cx.line = d['line']
         if 'file' in d and d['file'] is None:
             continue        # declared in an included, not scanned, header
         cx.file = d.get('file', default_file)
@@ -201,14 +283,15 @@ def to_symbols(decls, default_file='/src/foo.h'):
             has_body = d.get('fields') is not None
             kids = _fields(d['fields'], cx) if has_body else []
             if d.get('tag') and has_body:
-                normal.append(S(skind, d['tag'], T(ckind, d['tag'], None, 0, children=kids), cx.line, cx.file))
+                normal.append(S(skind, d['tag'], T(ckind, d['tag'], None, 0, children=kids),
+                                d.get('line_body') or cx.line, cx.file))
             if d.get('typedef'):
                 base = T(ckind, d.get('tag'), None, 0, children=kids, storage=STORAGE_TYPEDEF)
                 for q in d.get('typedef_ptrs', []):
                     base = T(CT_POINTER, None, base, q)
                 normal.append(S(SYM_TYPEDEF, d['typedef'], base, cx.line, cx.file))
         elif k == 'enum':
-            vals = enum_values(d['members'])
+            vals = frontend_enum_values(d['members'])
             kids = [S(SYM_OBJECT, m['name'], None, cx.line, cx.file, private=bool(m.get('private')),
                       const_int=_s64(v)) for m, v in zip(d['members'], vals)]
             isbf = 1 if (d.get('flags') or any(m.get('shift') for m in d['members'])) else 0
@@ -232,7 +315,12 @@ def to_symbols(decls, default_file='/src/foo.h'):
                 kw['const_boolean'] = bool(v['b'])
             base = None
             if v.get('cast') is not None:
-                base = _type_chain(v['cast'], cx)
+                if not cast_is_lexed_as_type(v['cast']):
+                    continue        # syntax error in the macro scan: nothing is emitted
+                if v['k'] != 'bool':
+                    # type_name: specifier_qualifier_list abstract_declarator has no action, so
+                    # $$ = $1: pointer stars of the cast are dropped (scannerparser.y 1330-1333)
+                    base = _spec(v['cast'])
             elif v.get('wrap') in ('G_GINT64_CONSTANT', 'G_GUINT64_CONSTANT'):
                 uns = v.get('wrap') == 'G_GUINT64_CONSTANT' or v.get('usuffix')
                 base = T(CT_BASIC, 'guint64' if uns else 'gint64')
@@ -384,8 +472,12 @@ def to_header_text(decls, only_file=None):
                     lines.append('  /*< %s >*/' % ('private' if priv else 'public'))
                 if m.get('value') is None:
                     lines.append('  %s,' % m['name'])
-                elif m.get('shift') and m['value'] > 0 and (m['value'] & (m['value'] - 1)) == 0:
-                    lines.append('  %s = 1 << %d,' % (m['name'], m['value'].bit_length() - 1))
+                elif m.get('shift'):
+                    # always spelled with `<<` so that the text sets is_bitfield like to_symbols does
+                    v = abs(m['value'])
+                    tz = (v & -v).bit_length() - 1 if v else 0
+                    txt = '%d << %d' % (v >> tz, tz)
+                    lines.append('  %s = %s,' % (m['name'], txt if m['value'] >= 0 else '-(%s)' % txt))
                 else:
                     lines.append('  %s = %d,' % (m['name'], m['value']))
             flags = ' /*< flags >*/' if d.get('flags') else ''
@@ -393,7 +485,7 @@ def to_header_text(decls, only_file=None):
             if d.get('name'):
                 out.append('typedef enum%s%s {\n%s\n} %s;' % (flags, tag, '\n'.join(lines), d['name']))
             else:
-                out.append('enum%s {\n%s\n};' % (tag, '\n'.join(lines)))
+                out.append('enum%s%s {\n%s\n};' % (flags, tag, '\n'.join(lines)))
         elif k == 'var':
             out.append('extern %s;' % decl_text(d['type'], d['name']))
         elif k == 'const':
